@@ -2733,7 +2733,11 @@ func (data *Data) pruneIndexGroups(id uint64) error {
 					pos := sort.Search(len(rp.IndexGroups[idx].Indexes), func(i int) bool {
 						return rp.IndexGroups[idx].Indexes[i].ID >= id
 					})
-					rp.IndexGroups[idx].Indexes[pos].MarkDelete = true
+					// the ids of a group are not contiguous once ExpandGroups added indexes: the
+					// first id >= id may belong to another index
+					if rp.IndexGroups[idx].Indexes[pos].ID == id {
+						rp.IndexGroups[idx].Indexes[pos].MarkDelete = true
+					}
 				}
 				if rp.IndexGroups[idx].canDelete() {
 					rp.IndexGroups = append(rp.IndexGroups[:idx],
@@ -2759,7 +2763,11 @@ func (data *Data) pruneShardGroups(id uint64) error {
 					pos := sort.Search(len(rp.ShardGroups[idx].Shards), func(i int) bool {
 						return rp.ShardGroups[idx].Shards[i].ID >= id
 					})
-					rp.ShardGroups[idx].Shards[pos].MarkDelete = true
+					// the ids of a group are not contiguous once ExpandGroups added shards ({1,3} and
+					// {2,4}): the first id >= id may be a shard of this - possibly live - group
+					if rp.ShardGroups[idx].Shards[pos].ID == id {
+						rp.ShardGroups[idx].Shards[pos].MarkDelete = true
+					}
 				}
 
 				if !rp.ShardGroups[idx].DeletedAt.IsZero() && rp.ShardGroups[idx].canDelete() {
